@@ -1,6 +1,7 @@
 package main
 
 import (
+	"fmt"
 	"go/ast"
 	"go/token"
 	"go/types"
@@ -16,7 +17,7 @@ func importRules(c *Check, from string, check func(*Check), rules map[string]boo
 	func() {
 		defer func() {
 			if r := recover(); r != nil {
-				c.Fail(as, from+":import", token.NoPos, "undecided: the imported rules could not be evaluated")
+				c.Fail(as, from+":import", token.NoPos, fmt.Sprint("undecided: the imported rules could not be evaluated: ", r))
 			}
 		}()
 		check(sub)
